@@ -35,3 +35,19 @@ def is_item(list_item, obj):
     """`list_item` (an element read from a list of objects) is the object `obj`.  In proofs symbolic lists of
     objects hold handles (pyvc.mlist.handle_of); natively this is identity."""
     return list_item is obj
+
+
+def conj(bools):
+    """all(bools), every operand evaluated (in proofs: a conjunction term, no case split per operand)"""
+    return all(list(bools))
+
+
+def slot(d, k):
+    """the value of key k in a dictionary of lists, () when absent.  (In proofs, for dictionaries with symbolic
+    key presence, the value slot of k: meaningful only together with `k in d`.)"""
+    return d.get(k, ())
+
+
+def snapshot_lists(d):
+    """a copy of a dictionary of lists, the lists copied too"""
+    return {k: list(v) for k, v in d.items()}
